@@ -436,8 +436,80 @@ def run_adversarial(ctx, i, log):
       flax.config.update('flax_fix_rng_separator', False)
 
 
+def jit_classes():
+  global _JC
+  try:
+    return _JC
+  except NameError:
+    pass
+  import jax
+  import jax.numpy as jnp
+  import flax.linen as nn
+
+  class Leaf(nn.Module):
+    stream: str
+
+    @nn.compact
+    def __call__(self, x):
+      return jax.random.key_data(self.make_rng(self.stream))
+
+  class KeyBlock(nn.Module):
+    stream: str
+
+    @nn.compact
+    def __call__(self, x):
+      own = jax.random.key_data(self.make_rng(self.stream))
+      sub = Leaf(self.stream, name='leaf')(x)      # a child scope created inside the (jitted) call
+      sub2 = Leaf(self.stream, name='leaf')(x) if False else Leaf(self.stream, name='leaf2')(x)
+      return jnp.stack([own, sub, sub2])
+
+  JitKeyBlock = nn.jit(KeyBlock)   # created once, like user code: the trace cache lives across applies
+
+  class Host(nn.Module):
+    stream: str
+    reps: int
+    jitted: bool
+
+    @nn.compact
+    def __call__(self, x):
+      blk = (JitKeyBlock if self.jitted else KeyBlock)(self.stream, name='blk')
+      first = jax.random.key_data(self.make_rng(self.stream))
+      ks = [blk(x) for _ in range(self.reps)]
+      last = jax.random.key_data(self.make_rng(self.stream))
+      return jnp.concatenate([first[None], *ks, last[None]])
+
+  _JC = dict(Host=Host)
+  return _JC
+
+
+def run_jit(ctx, i, rng):
+  """Keys handed out inside nn.jit-ed modules: the same program with the same seeds yields the same keys on every apply in one
+  process (trace-cache hits included), never repeats a key within a run, and a fresh instance agrees."""
+  import jax
+  H = jit_classes()['Host']
+  reps = 1 + i % 3
+  stream = ['noise', 'params'][i % 2]
+  desc = dict(reps=reps, stream=stream, i=i)
+  with ctx.case('linen.jit', i, desc, nontrivial=reps >= 2):
+    x = np.ones((2,), np.float32)
+    rngs = {'params': jax.random.key(i), 'noise': jax.random.key(40 + i)}
+    m = H(stream, reps, True)
+    outs = [np.asarray(m.apply({}, x, rngs=rngs)) for _ in range(3)]
+    fresh = np.asarray(H(stream, reps, True).apply({}, x, rngs=rngs))
+    ctx.op('nn.jit(make_rng)')
+    ctx.check(all(np.array_equal(outs[0], o) for o in outs[1:]) and np.array_equal(outs[0], fresh), 'determinism:jit_keys_change_between_applies',
+              lambda: dict(case=desc, differing_rows=[int(r) for r in np.where((outs[0] != outs[1]).any(axis=1))[0]]))
+    rows = [r.tobytes() for r in outs[0]]
+    ctx.check(len(set(rows)) == len(rows), 'injective:jit_key_reused_within_run', lambda: dict(case=desc, n=len(rows), distinct=len(set(rows))))
+    rngs2 = {'params': jax.random.key(i + 1000), 'noise': jax.random.key(2000 + i)}
+    o2 = np.asarray(m.apply({}, x, rngs=rngs2))
+    ctx.check(not (set(r.tobytes() for r in o2) & set(rows)), 'injective:different_seed_same_key', lambda: dict(case=desc))
+
+
 def run(ctx):
   log = DrawLog(ctx)
+  for i in ctx.indices(18 if ctx.tier == 'quick' else 120, 'linen.jit'):
+    run_jit(ctx, i, ctx.rng('jit', i))
   for i in ctx.indices(18, 'adversarial'):
     run_adversarial(ctx, i, log)
   n = 240 if ctx.tier == 'quick' else 4000
